@@ -37,5 +37,6 @@ pub fn run(ctx: &Ctx) {
     ctx.guard_check("normalising passphrases present", ctx.classes_matching(|c| c.contains("(nfkd-changes)")) > 0, "at least one passphrase whose NFKD form differs from its input was compared");
     crate::hist::histories(ctx, P, "seed-histories", "Mnemonic::seed, a sequence on one fresh thread", crate::hist::c02_ops(ctx.seed));
     crate::hist::long_runs(ctx, P, "seed-long-runs", "Mnemonic::seed, a long run on one fresh thread", if ctx.quick() { 40 } else { 100 }, crate::hist::c02_nth(ctx.seed));
+    crate::hist::under_entropy_answers(ctx, P, "seeds-under-entropy-answers", "Mnemonic::seed with the entropy source scripted", crate::hist::c02_ops(ctx.seed));
     crate::hist::size_runs(ctx, P, "passphrase-size-runs", "Mnemonic::seed: passphrase sizes across orders of magnitude on one fresh thread", &[0, 1, 8, 55, 56, 111, 112, 127, 128, 129, 1000, 65_536, (1 << 20) + 100], crate::hist::c02_sized(ctx.seed));
 }
